@@ -207,6 +207,7 @@ def check(ctx):
 
 
 MUTANTS = [
+    M("D28-reverted: unknown value appended although StringDiscretizer may have recorded it", [(F_QUAL, "                        if unknown_value not in order:\n                            order.append(unknown_value)\n", "                        order.append(unknown_value)\n")], "R-append-absent", "unknown_value", quick=True),
     M("D8-reverted: str_nan appended for every unknown value", [(F_QUAL, "                        if self.str_nan not in order:\n                            order.append(self.str_nan)\n", "                        order.append(self.str_nan)\n")], "R-append-absent", "_prepare_data", quick=True),
     M("D23-reverted: select on an empty condition list", [(F_QUAL, "                if len(values_to_group) > 0:\n                    x_copy[feature] = select(df_to_input, groups_value, default=x_copy[feature])\n", "                x_copy[feature] = select(df_to_input, groups_value, default=x_copy[feature])\n")], "R-select-nonempty", quick=True),
     M("strict frequency threshold", [(F_QUAL, "to_keep = list(values[frequencies >= self.min_freq]) + [", "to_keep = list(values[frequencies > self.min_freq]) + [")], "R-thresholds", "kept iff", quick=True),
